@@ -271,6 +271,9 @@ def C18(tier, seed):
             candgraph.points_replay, ("built", "witness:frame_gap"),
             "3 detections, each in any of 4 frames (empty frames and gaps included), 2-D positions and maximum "
             "distance arbitrary reals (non-linear real arithmetic)"),
+        Run("points:scaled:M=%d" % (2 if q else 3), candgraph.points_harness,
+            dict(M=2 if q else 3, frames=3, scale="sym"), candgraph.points_replay, ("built",),
+            "%d detections in 3 frames, symbolic anisotropic scale (time factor 1)" % (2 if q else 3)),
         Run("points1d:M=%d" % (4 if q else 5), candgraph.points_harness, dict(M=4 if q else 5, frames=4, dims=1),
             candgraph.points_replay, ("built", "witness:frame_gap"),
             "%d detections in 4 frames, 1-D positions (|a-b| <= r is linear: one more detection is affordable)"
